@@ -106,8 +106,14 @@ def render(tokens, rnd, layout=True, literal_spelling=True, parens=True, trailin
         if k > 0:
             prev = parts[k - 1][0]
             if layout:
+                pidx = parts[k - 1][1]
+                pty = tokens[pidx][1] if pidx is not None else "interpunction"
+                ty = tokens[idx][1] if idx is not None else "interpunction"
+                word = ("int", "decimal", "string", "boolean", "identifier", "keyword")
                 if (prev[-1] in TOUCH or txt[0] in TOUCH) and rnd.random() < 0.35:
                     g = ""
+                elif ((pty in word and ty == "operator") or (pty == "operator" and ty in word)) and rnd.random() < 0.3:
+                    g = ""          # a literal or name directly followed by an operator, an operator directly followed by a literal or name
                 else:
                     g = rnd.choice(GAPS)
             else:
